@@ -12,7 +12,7 @@ need `ZMod n` to be a field carry `[Fact n.Prime]` (and say which point must be 
   `proofDleq_complete`;
 * the negative side of `Verify`: `verify_iff`, `verify_wrong_point`, `verify_wrong_key` (`verify_key_iff`),
   `verify_wrong_secret` (`verify_secret_iff`);
-* special soundness (`dleq_special_sound`, `dleq_special_sound_hash`, `dleq_forgery_unique_challenge`,
+* special soundness (`dleq_extract` — witness extraction —, `dleq_special_sound`, `dleq_special_sound_hash`, `dleq_forgery_unique_challenge`,
   `dleq_wrong_key_unique_challenge`): if `C' ≠ a•B'` (e.g. `C'` was made with another key `a' ≠ a`), every commitment
   `(R1,R2)` admits AT MOST ONE challenge `e` that has a response — so an accepting forged proof must have found a
   commitment whose hash value is that single challenge;
@@ -243,6 +243,17 @@ example : (5 : ZMod 7) ≠ (3 : ZMod 7) • (2 : ZMod 7) ∧
 -- and `C' ≠ a•B'` cannot be dropped: for `C' = a•B'` one commitment opens for two challenges
 example : dleqOpens (1 : ZMod 7) 4 1 (1 : ZMod 7) 0 ((3 : ZMod 7) • 1) 2 6 ∧
     dleqOpens (1 : ZMod 7) 4 1 (2 : ZMod 7) 3 ((3 : ZMod 7) • 1) 2 6 := by decide
+
+/-- Knowledge soundness (witness extraction), the strongest algebraic form: from two openings of one commitment with
+different challenges one COMPUTES `w = (s − s')/(e − e')` with `A = w•g` and `C' = w•B'`; nothing is assumed about
+`g`, `A`, `B'`, `C'`. (`dleq_special_sound` is the corollary for `A = a•g`, `g ≠ 0`.) -/
+theorem dleq_extract {e e' s s' : ZMod n} {R1 R2 A B' C' : G}
+    (h : dleqOpens g R1 R2 e s A B' C') (h' : dleqOpens g R1 R2 e' s' A B' C') (hne : e ≠ e') :
+    A = ((s - s') * (e - e')⁻¹) • g ∧ C' = ((s - s') * (e - e')⁻¹) • B' :=
+  opens_extract h h' hne
+
+-- a = 3 is recovered from the two openings of the commitment (4, 1) above: (0 − 3) = 3·(1 − 2), i.e. w = 3
+example : ((0 : ZMod 7) - 3) = 3 * ((1 : ZMod 7) - 2) ∧ (1 : ZMod 7) ≠ 2 := by decide
 
 /-- Contrapositive with the hash in place: two accepted transcripts with the same recomputed `(R1, R2)` and different
 challenges prove `C' = a•B'` (the discrete logs are equal). -/
